@@ -4,7 +4,7 @@ import z3
 from pyvc.vtypes import *
 from pyvc.contract import Contract, LoopContract
 from pyvc import theory as T
-from pyvc.externals_aeon import TGraph, TBdd, net_of, EMPTY, bddvar
+from pyvc.externals_aeon import TGraph, TBdd, net_of, EMPTY, bddvar, setcard
 
 k = z3.Const("k", Name)
 OptSpace = TOpt(TSpace)
@@ -128,6 +128,12 @@ def _strict_contracts(reg):
             ("names_known", z3.ForAll([k], z3.Implies(R[k] >= 0, T.isvar(N(c), k)))),
         ]
 
+    _sc, _xc = z3.Const("s!sc", z3.ArraySort(Name, B)), z3.Const("x!sc", Name)
+    AX_SETCARD = [
+        z3.ForAll([_sc], setcard(_sc) >= 0, patterns=[setcard(_sc)]),
+        # def.setcard: removing a member lowers the cardinality by one (finite sets of variable names)
+        z3.ForAll([_sc, _xc], z3.Implies(_sc[_xc], setcard(z3.Store(_sc, _xc, False)) == setcard(_sc) - 1), patterns=[setcard(z3.Store(_sc, _xc, False))]),
+    ]
     reg.add(Contract(
         "biobalm.space_utils.percolate_space_strict",
         params=[("network", TGraph), ("space", TSpace)],
@@ -140,6 +146,7 @@ def _strict_contracts(reg):
             ("step.restriction_is_lfp", lambda c: z3.And(T.subspace(c.restriction, LFP(c)), T.subspace(LFP(c), c.restriction))),
             ("exactly_strict_lfp", lambda c: z3.ForAll([k], z3.If(c.result[k] >= 0, c.result[k], -1) == spec(c, k)))],
         local_types={"result": TSpace, "restriction": TSpace, "candidates": TSet(TName), "done": TBool},
+        axioms=AX_SETCARD,
         lemmas=[("L1.strict_lfp_extends+closed", lem_lfp), ("L1.strict_lfp_least+evalon_monotone", lem_least_and_down)],
         loops={
             0: LoopContract("for var in network.network_variable_names()", lambda c: [
@@ -152,13 +159,15 @@ def _strict_contracts(reg):
                 ("closed_when_done", z3.Implies(c.done, z3.ForAll([k], z3.Implies(
                     c.candidates[k], T.EvalOn(fv(c, k), c.restriction) == -1)))),
             ], lemmas=[("L1.strict_lfp_extends+closed", lem_lfp)],
-                # termination: every pass that does not finish removes a candidate
-                variant=None),
+                # termination: every pass that does not finish removes at least one candidate
+                variant=lambda c: [setcard(c.candidates)]),
             2: LoopContract("for var in copy(candidates)", lambda c: J(c) + [
                 ("candidates_within_snapshot", z3.ForAll([k], z3.Implies(c.candidates[k], c.coll[k]))),
                 ("unvisited_still_candidates", z3.ForAll([k], z3.Implies(z3.And(c.coll[k], z3.Not(c.visited[k])), c.candidates[k]))),
                 ("visited_undetermined_when_done", z3.Implies(c.done, z3.ForAll([k], z3.Implies(
                     z3.And(c.visited[k], c.candidates[k]), T.EvalOn(fv(c, k), c.restriction) == -1)))),
+                ("progress_unless_done", z3.And(setcard(c.candidates) <= setcard(c.at_head(1, "candidates")),
+                                                z3.Implies(z3.Not(c.done), setcard(c.candidates) < setcard(c.at_head(1, "candidates"))))),
             ], lemmas=[("L1.strict_lfp_extends+closed", lem_lfp), ("L1.evalon_monotone", lem_mono_up)]),
         },
     ))
@@ -233,3 +242,69 @@ def _key_contract(reg):
                 z3.And(i >= 0, z3.ForAll([k], z3.Implies(c.visited[k], T.vidx(N(c), k) != i))), T.digit4(c.key, i) == 0))),
         ], lemmas=[("vidx.injective", lambda c: T.vidx_facts(N(c)))])},
     ))
+
+
+# ====================================================================== drivers.py (C11: single-node LDOIs and drivers)
+def install_drivers(reg):
+    """find_single_node_LDOIs: for every non-constant variable v and value b the strict percolation of {v: b} - exactly what
+    percolate_space_strict is specified to return; find_single_drivers: exactly the pairs whose LDOI together with the pair itself
+    contains the target."""
+    KT = TTuple(TName, TInt)
+    DL = TDict(KT, TSpace)
+    SK = TSet(KT)
+    OptDL = TOpt(DL)
+    N = lambda c: net_of(c.network)
+    kq, vq, bq = z3.Const("k!dr", Name), z3.Const("v!dr", Name), z3.Int("b!dr")
+    EMPTYS = z3.K(Name, z3.IntVal(-1))
+
+    def single(v, b):
+        return z3.Store(EMPTYS, v, b)
+
+    def strict_result(Nn, v, b, k):
+        """value of variable k in percolate_space_strict(network, {v: b}) (or -1), as specified by its contract"""
+        sp = single(v, b)
+        L = T.PercStrictLFP(Nn, sp)
+        e = T.EvalOn(T.updbdd(Nn, k), L)
+        return z3.If(z3.And(T.nonconst(Nn, k), e >= 0, z3.Or(sp[k] < 0, sp[k] == e)), e, -1)
+
+    def ldoi_ok(Nn, d, done):
+        """dictionary d holds exactly the entries of the variables for which done(v) holds"""
+        key = lambda v, b: KT.mk(v, b)
+        return z3.And(
+            z3.ForAll([vq, bq], DL.dom(d)[key(vq, bq)] == z3.And(done(vq), T.isvar(Nn, vq), T.nonconst(Nn, vq), z3.Or(bq == 0, bq == 1))),
+            z3.ForAll([vq, bq, kq], z3.Implies(DL.dom(d)[key(vq, bq)], z3.And(
+                T.wf_space(DL.vals(d)[key(vq, bq)]),
+                z3.If(DL.vals(d)[key(vq, bq)][kq] >= 0, DL.vals(d)[key(vq, bq)][kq], -1) == strict_result(Nn, vq, bq, kq)))))
+
+    LSn = TList(TName)
+    i_, j_ = z3.Int("i!dr"), z3.Int("j!dr")
+    reg.add(Contract(
+        "biobalm.drivers.find_single_node_LDOIs", params=[("network", TGraph)], result_type=DL, properties=("C11", "C06"),
+        ensures=[("strict_percolation_of_every_single_assignment_to_a_nonconstant_variable", lambda c: ldoi_ok(N(c), c.result, lambda v: z3.BoolVal(True)))],
+        local_types={"LDOIs": DL},
+        loops={0: LoopContract("for var in network.network_variable_names()", lambda c: [
+            ("entries_of_the_visited_variables", ldoi_ok(N(c), c.LDOIs, lambda v: z3.Exists([j_], z3.And(0 <= j_, j_ < c.i, LSn.at(c.coll)[j_] == v))))])},
+        note="for an AsynchronousGraph argument (a BooleanNetwork is wrapped first); constant variables are skipped"))
+
+    def covered(target, ld, v, b):
+        """target.items() <= ld.items() | {(v, b)}"""
+        return z3.ForAll([kq], z3.Implies(target[kq] >= 0, z3.Or(ld[kq] == target[kq], z3.And(kq == v, target[kq] == b))))
+
+    def drivers_of(c, d, r, done):
+        key = KT.mk(vq, bq)
+        return z3.ForAll([vq, bq], r[key] == z3.And(done(key), DL.dom(d)[key], covered(c.target_subspace, DL.vals(d)[key], vq, bq)))
+
+    reg.add(Contract(
+        "biobalm.drivers.find_single_drivers", params=[("target_subspace", TSpace), ("network", TGraph), ("LDOIs", OptDL)],
+        defaults={"LDOIs": None}, result_type=SK, properties=("C11", "C06"),
+        ensures=[("exactly_the_assignments_whose_ldoi_with_the_assignment_itself_contains_the_target", lambda c: z3.If(
+            OptDL.is_none(c.LDOIs),
+            z3.Exists([z3.Const("d!dr", DL.sort())], z3.And(ldoi_ok(N(c), z3.Const("d!dr", DL.sort()), lambda v: z3.BoolVal(True)),
+                                                            drivers_of(c, z3.Const("d!dr", DL.sort()), c.result, lambda k2: z3.BoolVal(True)))),
+            drivers_of(c, OptDL.val(c.LDOIs), c.result, lambda k2: z3.BoolVal(True))))],
+        local_types={"drivers": SK},
+        loops={0: LoopContract("for fix, LDOI in LDOIs.items()", lambda c: [
+            ("drivers_among_the_visited_entries", drivers_of(c, OptDL.val(c.LDOIs), c.drivers, lambda k2: c.visited[k2])),
+            ("table_is_the_given_one_or_the_ldoi_table", z3.And(z3.Not(OptDL.is_none(c.LDOIs)), z3.If(
+                OptDL.is_none(c.old.LDOIs), ldoi_ok(N(c), OptDL.val(c.LDOIs), lambda v: z3.BoolVal(True)), c.LDOIs == c.old.LDOIs)))])},
+        note="for an AsynchronousGraph argument; when no table is given it is computed by find_single_node_LDOIs"))
